@@ -292,6 +292,92 @@ pub fn run(ctx: &Ctx) -> CheckResult {
         res.extra.insert("long_prefix_family_configs".into(), json!(big.len()));
         res.absorb(merge_jobs(outs));
     }
+    // many resets: 300 one-input sessions each ended by reset(), and 300 consecutive resets after a full
+    // window (a generation counter in a narrow type, an "n-th reset" special case)
+    if !res.out.failed() {
+        let mut mr = vec![];
+        for k in ALL_KINDS {
+            mr.extend(generic_cfgs(k, &[2, 3], &[2, 3]));
+        }
+        let outs = par_run(ctx, &mr, |_, cfg| {
+            let mut out = JobOut::default();
+            let alpha = generic_alphabet(cfg.kind, false);
+            let big = |op: &Op, i: usize| -> Op {
+                let f = 1000.0 + i as f64;
+                match op {
+                    Op::S(x) => Op::S(x * f),
+                    Op::B(b) => Op::B(Bar { o: b.o * f, h: b.h * f, l: b.l * f, c: b.c * f, v: b.v }),
+                    Op::Reset => Op::Reset,
+                }
+            };
+            let n = cfg.max_period();
+            for variant in 0..2usize {
+                let mut ops: Vec<Op> = vec![];
+                if variant == 0 {
+                    for i in 0..300usize {
+                        ops.push(big(&alpha[i % alpha.len()], i));
+                        ops.push(Op::Reset);
+                    }
+                } else {
+                    for i in 0..n + 1 {
+                        ops.push(big(&alpha[i % alpha.len()], i));
+                    }
+                    for _ in 0..300 {
+                        ops.push(Op::Reset);
+                    }
+                }
+                let cont: Vec<Op> = (0..n + 3).map(|i| alpha[(i * 3 + 1) % alpha.len()]).collect();
+                let r = std::panic::catch_unwind(std::panic::AssertUnwindSafe(|| {
+                    let mut a = make(cfg);
+                    let mut first_bad: Option<(usize, Out, Out)> = None;
+                    for (i, op) in ops.iter().enumerate() {
+                        a.apply(op);
+                        // after every reset of the run the instance must behave like a fresh one
+                        if matches!(op, Op::Reset) && (i % 7 == 1 || i + 1 == ops.len() || (250..270).contains(&(i / if variant == 0 { 2 } else { 1 }))) {
+                            let mut x = a.dup();
+                            let mut b = make(cfg);
+                            for (j, c) in cont.iter().enumerate() {
+                                let (oa, ob) = (x.apply(c), b.apply(c));
+                                if !out_rel_eq(&oa, &ob, 1e-12) {
+                                    first_bad = Some((i * 1000 + j, oa, ob));
+                                    break;
+                                }
+                            }
+                            if first_bad.is_some() {
+                                break;
+                            }
+                        }
+                    }
+                    first_bad
+                }));
+                out.stats.traces += 1;
+                out.stats.transitions += ops.len() as u64;
+                out.stats.evaluations += 300;
+                out.stats.nontrivial += 1;
+                match r {
+                    Ok(None) => {}
+                    Ok(Some((code, oa, ob))) => {
+                        let (i, j) = (code / 1000, code % 1000);
+                        let mut full = ops[..=i].to_vec();
+                        full.extend_from_slice(&cont[..=j]);
+                        out.fail(
+                            Violation::new(PROP, cfg, &full, "reset-differs-from-fresh")
+                                .obs(out2s(&oa))
+                                .exp(out2s(&ob))
+                                .det(format!("after {} operations ({}), output {} of the continuation differs from a fresh instance", i + 1, if variant == 0 { "one-input sessions each ended by reset()" } else { "a full window followed by consecutive resets" }, j + 1)),
+                        );
+                        return out;
+                    }
+                    Err(_) => {
+                        out.fail(Violation::new(PROP, cfg, &ops, "panic").obs("panic".into()).exp("reset returns".into()));
+                        return out;
+                    }
+                }
+            }
+            out
+        });
+        res.absorb(merge_jobs(outs));
+    }
     // lifecycle state graph: Reset checked in EVERY reachable state (fixpoint where the graph is finite)
     if !res.out.failed() {
         let (o, grows) = super::graph::run_all(ctx, PROP, super::graph::Fork::Reset, if th { &[1, 2, 3, 4, 5] } else { &[1, 2, 3, 4] }, &[1, 2], if th { 150_000 } else { 5_000 }, if th { 16 } else { 10 });
@@ -321,7 +407,7 @@ pub fn run(ctx: &Ctx) -> CheckResult {
     res.extra.insert("post_reset_states".into(), json!(rows));
     res.extra.insert("max_distinct_post_reset_states".into(), json!(max_keys));
     res.rule = "case = (configuration, prefix history incl. NaN/inf/extreme values and resets, reset(), continuation): every continuation of length max(n+2,4) over finite values + NaN + inf compared step by step (1e-12 relative, NaN==NaN) with a fresh instance; continuations are explored for the first two prefixes reaching each distinct post-reset concrete state and for all prefixes of length <= 1; non-trivial = non-empty prefix".into();
-    res.bounds = format!("all 22 indicators, periods 1..4 (tuples over {{1,2,3}}; periods 2^32+2 and usize::MAX for EMA/ATR/RSI/KC/MACD/PPO/SLOW_STOCH with 4-step continuations), every prefix in seq(4 values + 4 special + reset, {dp}), every continuation of length max(n+2,4) over 5 symbols; plus long-prefix family: every prefix length 0..=3n+3 of 4 default streams (incl. NaN/inf deviations) -> reset -> 3 continuations of n+2 inputs for periods up to {}", if th { 256 } else { 64 });
+    res.bounds = format!("all 22 indicators, periods 1..4 (tuples over {{1,2,3}}; periods 2^32+2 and usize::MAX for EMA/ATR/RSI/KC/MACD/PPO/SLOW_STOCH with 4-step continuations), every prefix in seq(4 values + 4 special + reset, {dp}), every continuation of length max(n+2,4) over 5 symbols; plus 300 one-input sessions each ended by reset() and 300 consecutive resets (continuation vs fresh after the resets); plus long-prefix family: every prefix length 0..=3n+3 of 4 default streams (incl. NaN/inf deviations) -> reset -> 3 continuations of n+2 inputs for periods up to {}", if th { 256 } else { 64 });
     res.assumptions = vec!["two instances with identical bincode bytes and identical Debug rendering have identical futures (used only to de-duplicate continuation exploration; every reported difference is a real execution)".into()];
     res
 }
